@@ -558,6 +558,25 @@ func c10Read(w *World, r *Report, t *types.Named) {
 	if k == 0 {
 		r.Fail("C10-d", name, "placement into the caller's buffer", w.relFile(rd.Pos()), "Read never writes into its buffer")
 	}
+	// C10-d (arithmetic form): the remaining length must not be computed in unsigned arithmetic, where a
+	// cursor beyond the end (Seek allows it) wraps to a huge length instead of going negative
+	for _, fn := range withClosures(rd) {
+		allInstrs(fn, func(ins ssa.Instruction) {
+			bin, ok := ins.(*ssa.BinOp)
+			if !ok || bin.Op != token.SUB {
+				return
+			}
+			bt, ok := bin.Type().Underlying().(*types.Basic)
+			if !ok || bt.Info()&types.IsUnsigned == 0 {
+				return
+			}
+			px, py := w.prov(bin.X, provOpts{}), w.prov(bin.Y, provOpts{})
+			if hasSizeRoot(px) && hasCursorRoot(py) {
+				r.Fail("C10-d", name, "remaining length computed in signed arithmetic", w.relFile(instrPos(bin)),
+					"size - cursor is computed in an unsigned type: with the cursor beyond the end the result wraps and the end-of-file test is skipped")
+			}
+		})
+	}
 	// C10-e EOF under a size/cursor comparison
 	eofOK := false
 	allInstrs(rd, func(ins ssa.Instruction) {
